@@ -281,6 +281,8 @@ def make_plug(ctx, cid, bad, tdmode):
     if tdmode == 'hang':
       while True:
         time.sleep(1)
+    if tdmode == 'edge':           # returns at the very moment plug_teardown_timeout_s (3 s in these runs) expires
+      time.sleep(3)
     if tdmode == 'hardhang':       # blocks and cannot be killed: it has to be abandoned
       while True:
         try:
@@ -300,7 +302,11 @@ def build_phase(ctx, node, plugcls, timeout_s=None):
   if o['runif'] == 'true':
     kw['run_if'] = lambda: True
   elif o['runif'] == 'false':
-    kw['run_if'] = lambda: False
+    # "a false run_if": any value that is false in a condition (the callback's result is only tested)
+    import zlib
+    h = zlib.crc32(repr((node['name'], sorted((k, repr(v)) for k, v in ctx.script.items()))).encode())
+    falsy = (False, None, 0, '', [], 0.0)[h % 6]
+    kw['run_if'] = lambda: falsy
   elif o['runif'] == 'raise':
     def _raise():
       raise BodyError('run_if raises')
